@@ -37,6 +37,16 @@ fn main() {
         println!("wrong-key cells: {v:?}");
         std::process::exit(if v.is_empty() { 0 } else { 1 });
     }
+    if args.get(1).map(|s| s.as_str()) == Some("--odd-chain") {
+        let v = c14::odd_chain_cells();
+        println!("odd-chain cells: {v:?}");
+        std::process::exit(if v.is_empty() { 0 } else { 1 });
+    }
+    if args.get(1).map(|s| s.as_str()) == Some("--double-tls") {
+        let v = c14::double_tls_cells();
+        println!("double-tls cells: {v:?}");
+        std::process::exit(if v.is_empty() { 0 } else { 1 });
+    }
     if args.get(1).map(|s| s.as_str()) == Some("--replay") {
         let c: c14::Case = serde_json::from_str(&args[2]).expect("case json");
         let (class, v) = c14::judge(&c);
@@ -52,11 +62,14 @@ fn main() {
     for (sig, what, case) in c14::double_tls_cells() {
         println!("{}", json!({"t": "v", "sig": sig, "what": what, "case": case, "rank": 1}));
     }
+    for (sig, what, case) in c14::odd_chain_cells() {
+        println!("{}", json!({"t": "v", "sig": sig, "what": what, "case": case, "rank": 1}));
+    }
     let r = c14::run_matrix();
     for (sig, what, case, rank) in &r.violations {
         println!("{}", json!({"t": "v", "sig": sig, "what": what, "case": case, "rank": rank}));
     }
-    println!("{}", json!({"t": "done", "n": r.n, "outcomes": r.outcomes}));
+    println!("{}", json!({"t": "done", "n": r.n + 64 + 6 + c14::ODD_CHAIN_CELLS, "outcomes": r.outcomes}));
 }
 
 //
